@@ -44,6 +44,8 @@ type Conn struct {
 	fromReceived bool
 	recipients   []string
 	didAuth      bool
+
+	closed bool // set by Close, guarded by locker
 }
 
 func newConn(c net.Conn, s *Server) *Conn {
@@ -170,6 +172,8 @@ func (c *Conn) Close() error {
 	c.locker.Lock()
 	defer c.locker.Unlock()
 
+	c.closed = true
+
 	if c.bdatPipe != nil {
 		c.bdatPipe.CloseWithError(ErrDataReset)
 		c.bdatPipe = nil
@@ -181,6 +185,12 @@ func (c *Conn) Close() error {
 	}
 
 	return c.conn.Close()
+}
+
+func (c *Conn) isClosed() bool {
+	c.locker.Lock()
+	defer c.locker.Unlock()
+	return c.closed
 }
 
 // TLSConnectionState returns the connection's TLS connection state.
